@@ -94,36 +94,36 @@ Theorem C17_refines_fs : forall cfg,
   path_ok (f_base cfg) -> forall ops,
   (forall k k', wfb k -> wfb k' -> enc_key cfg k = enc_key cfg k' -> k = k') ->
   hist_ok (@Some (list N)) true spec_empty ops = true -> Forall (op_storable cfg) ops ->
-  forallb atomic_op ops = true ->
   (N.of_nat (length ops) < 2 ^ 254)%N ->
   fs_obs cfg (fstate0 cfg) ops = spec_run (@Some (list N)) true spec_empty ops.
 Proof. exact fs_refines. Qed.
 Print Assumptions C17_refines_fs.
 
-(* PARTIAL: [atomic_op] restricts C17_refines_fs to histories in which every stream is opened, fed
-   and committed by one operation (Put, PutStream+Write*+commit, PutVec).  Streams kept OPEN across
-   other operations (OOpen / OWrite / OCommit) are in the executable model, in C17_refines for the
-   in-memory stores (proved, below in C17_refines: [hist_ok] admits them), in C17_fs_contained
-   (proved), in the correspondence run, and — as concurrent writers interleaved at system-call
-   granularity — in C18_atomic / C18_invariant; the sequential refinement statement for them on the
-   file-system store is the following, NOT proved here: *)
-Definition C17_refines_fs_streams_full : Prop := forall cfg,
+(* The statement that was open before: the history may keep streams OPEN across other operations
+   (OOpen / OWrite / OCommit as separate steps, any number at a time, commits in any order).  The
+   abstraction ignores the staging files of uncommitted streams: every open stream owns one staging
+   file, named by a counter value already used (so it can collide neither with a shard path nor with
+   another stream's file nor with a later put's), holding exactly what was written to the stream;
+   OOpen / OWrite leave the visible map unchanged, OCommit is the atomic move ([rel], [step_rel] in
+   Proofs/StoreFsRefine.v).  [hist_ok]: each key one content, a stream is committed once and not
+   written afterwards.  (It is the same statement as C17_refines_fs, which no longer needs its former
+   premise [atomic_op].) *)
+Theorem C17_refines_fs_streams_full : forall cfg,
   path_ok (f_base cfg) -> forall ops,
   (forall k k', wfb k -> wfb k' -> enc_key cfg k = enc_key cfg k' -> k = k') ->
   hist_ok (@Some (list N)) true spec_empty ops = true -> Forall (op_storable cfg) ops ->
   (N.of_nat (length ops) < 2 ^ 254)%N ->
   fs_obs cfg (fstate0 cfg) ops = spec_run (@Some (list N)) true spec_empty ops.
+Proof. exact fs_refines. Qed.
+Print Assumptions C17_refines_fs_streams_full.
 
-(* ... in particular for the repaired default configuration (base32 applied, empty key refused):
-   no hypothesis about the escaping function is left *)
 Theorem C17_refines_fs_repaired : forall base sh ops,
   path_ok base ->
   hist_ok (@Some (list N)) true spec_empty ops = true -> Forall (op_storable (repaired_cfg base sh)) ops ->
-  forallb atomic_op ops = true ->
   (N.of_nat (length ops) < 2 ^ 254)%N ->
   fs_obs (repaired_cfg base sh) (fstate0 (repaired_cfg base sh)) ops = spec_run (@Some (list N)) true spec_empty ops.
 Proof.
-  intros base sh ops B H S A L. apply fs_refines; auto.
+  intros base sh ops B H S L. apply fs_refines; auto.
   apply escaping_enc_inj. split. reflexivity. constructor. exact b32enc_inj. exact b32enc_alpha. exact b32enc_nonempty.
 Qed.
 Print Assumptions C17_refines_fs_repaired.
@@ -140,11 +140,25 @@ Theorem C17_pinned_plain_keys_storable : forall cfg k, q_no_escape cfg = true ->
 Proof. exact plain_storable. Qed.
 Print Assumptions C17_pinned_plain_keys_storable.
 
+(* non-vacuity: two streams open across a Put / Get / Has of other keys AND of the key one of them
+   is going to commit (same content: each key has one content); commits in the opposite order *)
+Definition ex_kA : list N := [107;101;121;65].   (* "keyA" *)
+Definition ex_kB : list N := [107;101;121;66].   (* "keyB" *)
+Definition ex_kO : list N := [111;116;104;101;114]. (* "other" *)
+Definition ex_stream_ops : list op :=
+  [ONew content1; ONew [120;121]%N;
+   OOpen; OOpen; OWrite 0 0;
+   OPut ex_kO 1; OGet ex_kO; OHas ex_kA; OHas ex_kB;
+   OWrite 1 1; OWrite 1 0;
+   OPut ex_kA 0; OGet ex_kA; OMut 0 [1;2;3]%N;
+   OCommit 1 ex_kB; OHas ex_kB; OGetStream ex_kB;
+   OCommit 0 ex_kA; OGet ex_kA; OGet ex_kB; OHas ex_kO].
+
 Example C17_refines_fs_hyp_satisfiable :
   let cfg := pinned_cfg wbase R12 in
-  let ops := [ONew content1; OPut [107;101;121]%N 0; OMut 0 [1;2;3]%N; OGet [107;101;121]%N; OHas [107]%N] in
   path_ok (f_base cfg) /\ (forall k k', wfb k -> wfb k' -> enc_key cfg k = enc_key cfg k' -> k = k') /\
-  hist_ok (@Some (list N)) true spec_empty ops = true /\ Forall (op_storable cfg) ops /\ forallb atomic_op ops = true.
+  hist_ok (@Some (list N)) true spec_empty ex_stream_ops = true /\ Forall (op_storable cfg) ex_stream_ops /\
+  (N.of_nat (length ex_stream_ops) < 2 ^ 254)%N.
 Proof.
   assert (P : forall k, plain k -> (lenN k <=? name_max)%N = true -> key_len_ok k -> bytes_ok k = true ->
                exists d, storable (pinned_cfg wbase R12) k d).
@@ -154,15 +168,31 @@ Proof.
     specialize (H b Hb). apply negb_true_iff in H. apply orb_false_iff in H. destruct H as [H H3].
     apply orb_false_iff in H. destruct H as [H1 H2].
     apply N.eqb_neq in H1. apply N.eqb_neq in H2. apply N.eqb_neq in H3. repeat split; auto. }
+  assert (SA : exists d, storable (pinned_cfg wbase R12) ex_kA d).
+  { apply P. apply PL. discriminate. reflexivity. reflexivity. unfold key_len_ok. simpl. reflexivity. reflexivity. }
+  assert (SB : exists d, storable (pinned_cfg wbase R12) ex_kB d).
+  { apply P. apply PL. discriminate. reflexivity. reflexivity. unfold key_len_ok. simpl. reflexivity. reflexivity. }
+  assert (SO : exists d, storable (pinned_cfg wbase R12) ex_kO d).
+  { apply P. apply PL. discriminate. reflexivity. reflexivity. unfold key_len_ok. simpl. reflexivity. reflexivity. }
   split. { repeat constructor. }
   split. { intros k k' _ _ H. exact H. }
   split. { reflexivity. }
   split; [|reflexivity].
-  repeat constructor; unfold op_storable; simpl; auto.
-  - apply P. apply PL. discriminate. reflexivity. reflexivity. unfold key_len_ok. simpl. reflexivity. reflexivity.
-  - apply P. apply PL. discriminate. reflexivity. reflexivity. unfold key_len_ok. simpl. reflexivity. reflexivity.
-  - apply P. apply PL. discriminate. reflexivity. reflexivity. unfold key_len_ok. simpl. reflexivity. reflexivity.
+  unfold ex_stream_ops. repeat constructor; unfold op_storable; simpl; auto.
 Qed.
+
+(* ... and what the theorem then says about that history, computed on both sides *)
+Example C17_refines_fs_streams_instance :
+  fs_obs (pinned_cfg wbase R12) (fstate0 (pinned_cfg wbase R12)) ex_stream_ops
+  = spec_run (@Some (list N)) true spec_empty ex_stream_ops /\
+  spec_run (@Some (list N)) true spec_empty ex_stream_ops
+  = [OUnit; OUnit; OOk; OOk; OOk;
+     OOk; OBytes [120;121]%N; OBool false; OBool false;
+     OOk; OOk;
+     OOk; OBytes content1; OUnit;
+     OOk; OBool true; OBytes ([120;121]%N ++ content1);
+     OOk; OBytes content1; OBytes ([120;121]%N ++ content1); OBool true].
+Proof. split; vm_compute; reflexivity. Qed.
 
 (* --- the code AS IT STANDS (escapingFunc stored, never applied; commit("") = abort = success)
        violates the property: witnesses by computation on the faithful model --------------------- *)
